@@ -484,18 +484,16 @@ def getItem (o : Nat) (ix : Index) : M Nat :=
 def sameKeys (a b : List String) : Bool :=
   a.length == b.length && a.all (fun k => b.contains k) && b.all (fun k => a.contains k)
 
-/-- `Atoms.__setitem__`: the loop stops at the first key numpy refuses (earlier keys stay written). -/
+/-- `Atoms.__setitem__`: the loop stops at the first key numpy refuses (earlier keys stay written); overlap-safe
+    (`arrVal` reads the donor column before `assign` writes, which is what the copy of an overlapping donor gives). -/
 def setItem (o : Nat) (ix : Index) (src : Nat) : M Unit := do
   let s ← getS
   let ob := s.obj o
   let sb := s.obj src
   if ¬ sameKeys sb.keys ob.keys then fail .value else
   let sel ← liftE (resolve ob.natoms (atomsIndex ix))
-  -- numpy's 1-D boolean assignment does not protect against a donor overlapping the target
-  -- (a numpy hazard, not atomman's): outside the model
-  if sel.mask ∧ ob.props.any (fun p => arrTrail s p.arr = [] && match sb.find p.key with
-      | some da => sharesMem s p.arr da
-      | none => false) then fail .unmodelled else
+  -- a donor column that may share memory with the target is copied first (fix c2a392c): every column is
+  -- assigned from the donor's values as they are when that column's turn comes, never from rows already overwritten
   forEach ob.props (fun p => do
     let s' ← getS
     let a ← keyErr ((s'.obj src).find p.key)
